@@ -9,6 +9,7 @@ pub mod c04_relq;
 pub mod c05_graph;
 pub mod c06_search;
 pub mod c07_snapshot;
+pub mod c08_rollback;
 pub mod c09_reltx;
 pub mod c10_raftwal;
 pub mod c12_locks;
@@ -35,6 +36,7 @@ pub fn all() -> Vec<(&'static str, RunFn, ReplayFn)> {
         ("c05_graph", c05_graph::run, c05_graph::replay),
         ("c06_search", c06_search::run, c06_search::replay),
         ("c07_snapshot", c07_snapshot::run, c07_snapshot::replay),
+        ("c08_rollback", c08_rollback::run, c08_rollback::replay),
         ("c09_reltx", c09_reltx::run, c09_reltx::replay),
         ("c10_raftwal", c10_raftwal::run, c10_raftwal::replay),
         ("c12_locks", c12_locks::run, c12_locks::replay),
